@@ -416,12 +416,56 @@ def run(rep, ix, tier):
     check_rows(rep, ix)
     check_eb(rep, ix)
     check_text_length(rep, ix)
+    check_cell_types(rep, ix)
+    rep.floor('R-C08-CELLTYPE', 1)
     rep.floor('R-C08-TEXTLEN', 7)
     rep.floor('R-C08-WRITABLE', 18)
     rep.floor('R-C08-PREAMBLE', 11)
     rep.floor('R-C08-LADDER', 9)
     rep.floor('R-C08-ROWS', 14)
     rep.floor('R-C08-EB', 30)
+
+
+def check_cell_types(rep, ix):
+    """A decoded cell value is bytes, an int or a float (the reader picks by representation code), whatever the column is
+    called: code that needs bytes (building a mnemonic from the cell of a column named MNEM) must test the type first or
+    catch the TypeError, or a numeric cell under that column name makes the whole table undecodable."""
+    m = ix.module(L)
+    cls = ix.get_class(L, 'LrTable')
+    n = 0
+    for f in cls.body:
+        if not isinstance(f, ast.FunctionDef):
+            continue
+        for c in common.calls_in(f):
+            if attr_chain(c.func) != 'Mnem.Mnem' or not c.args:
+                continue
+            src = _n(defuse.inline_locals(f, c.args[0], depth=3))
+            if not (src.endswith('.value') and 'self._rows' in src):
+                continue
+            n += 1
+            arg = _n(c.args[0])
+            guarded = None
+            node, child = getattr(c, '_parent', None), c
+            while node is not None and node is not f:
+                if isinstance(node, ast.If) and any(child is x or _inside_stmt(child, x) for x in node.body):
+                    for t in ast.walk(node.test):
+                        if isinstance(t, ast.Call) and _n(t.func) == 'isinstance' and len(t.args) == 2 and _n(t.args[0]) == arg:
+                            kinds = {_n(k) for k in (t.args[1].elts if isinstance(t.args[1], ast.Tuple) else [t.args[1]])}
+                            if kinds <= {'bytes', 'str', 'bytearray'}:
+                                guarded = f'isinstance({arg}, {sorted(kinds)})'
+                if isinstance(node, ast.Try) and any(child is x or _inside_stmt(child, x) for x in node.body):
+                    for h in node.handlers:
+                        names = {_n(k) for k in (h.type.elts if isinstance(h.type, ast.Tuple) else [h.type])} if h.type is not None else {'BaseException'}
+                        if names & {'TypeError', 'Exception', 'BaseException'}:
+                            guarded = guarded or f'except {sorted(names)}'
+                child, node = node, getattr(node, '_parent', None)
+            rep.ob('R-C08-CELLTYPE', f'{L}:LrTable.{f.name}', f'Mnem.Mnem({arg}) on a decoded cell value only when it is bytes', guarded is not None,
+                   found=guarded or f'{src} may be an int or a float: len() of it raises TypeError', required='isinstance test on the value, or a TypeError handler',
+                   node=c, module=m)
+
+
+def _inside_stmt(node, st):
+    return any(node is x for x in ast.walk(st))
 
 
 def check_text_length(rep, ix):
